@@ -1,12 +1,12 @@
 import Irismod.Props.C13_Farm
 open Irismod Irismod.Sdk Irismod.Farm Irismod.Spec Irismod.Spec.C13Farm Irismod.Props.C13Farm Irismod.Proofs.Farm
-#print axioms queue_ok_partial
+#print axioms queue_ok_run
 #print axioms end_block_total
 #print axioms end_blocks_total
 #print axioms end_block_handles_due
 #print axioms handled_exactly_once
-#print axioms due_not_handled_in_class
--- non-vacuity: in the (Clean) F-farm-1 history run on to the pool's end height 110 the EndBlocker finds the pool due,
+#print axioms end_topup_history_handled
+-- non-vacuity: in the F-farm-1 history run on to the pool's end height 110 the EndBlocker finds the pool due,
 -- refunds it and empties the queue
 #eval s!"nonvacuous {
   let s := (endBlocks 98 (run w1Genesis w1Ops)).1
